@@ -41,6 +41,19 @@ def pairsOf : List Nat → List (Nat × Nat)
 def natLe (a b : Nat) : Bool := a ≤ b
 def pairLe (a b : Nat × Nat) : Bool := a.1 < b.1 || (a.1 == b.1 && a.2 ≤ b.2)
 
+/-- depth-first pre-order over the live cells with an explicit stack; `rank[c] = unset` until visited -/
+def dfs (cells : Array Cell) (kidsOf : Cell → List Nat) (dead : Array Bool) :
+    Nat → List Nat → Array Nat → Array Nat → Array Nat × Array Nat
+  | 0, _, rank, order => (rank, order)
+  | _, [], rank, order => (rank, order)
+  | fuel + 1, c :: todo, rank, order =>
+    if dead.getD c true || rank.getD c 0 != rank.size + 1 then dfs cells kidsOf dead fuel todo rank order
+    else
+      let rank := rank.set! c order.size
+      let order := order.push c
+      let ks := (kidsOf (cells.getD c default)).filter (fun k => rank.getD k 0 == rank.size + 1)
+      dfs cells kidsOf dead fuel (ks ++ todo) rank order
+
 def canon (s : OS) : String :=
   let cells := s.cells.toArray
   let n := cells.size
@@ -48,9 +61,17 @@ def canon (s : OS) : String :=
   let zero := (List.range n).filter (fun c => cnt0.getD c 0 == 0)
   let edges := s.cells.foldl (fun a x => a + x.kids.length) 0
   let (cnt, dead) := sweep cells (2 * n + edges + 2) zero cnt0 (Array.replicate n false)
-  -- rank of every live cell
-  let (rank, _) := (List.range n).foldl (fun (acc : Array Nat × Nat) c =>
-    if dead.getD c true then (acc.1.push 0, acc.2) else (acc.1.push acc.2, acc.2 + 1)) ((#[] : Array Nat), 0)
+  -- canonical ranks: depth-first from the roots (memo by key, stack bottom first, then whatever else is alive, by age),
+  -- children in their order; only the members of unordered containers are ordered by age
+  let orderedKids (x : Cell) : List Nat :=
+    match x.kind with
+    | .dict => ((pairsOf x.kids).mergeSort pairLe).flatMap (fun p => [p.1, p.2])
+    | .set | .frozenSet => x.kids.mergeSort natLe
+    | _ => x.kids
+  let roots : List Nat := ((s.memo.mergeSort (fun a b => a.1 ≤ b.1)).map (·.2)) ++ s.stack.reverse ++
+    (List.range n).filter (fun c => !dead.getD c true)
+  let unset := n + 1
+  let (rank, order) := dfs cells orderedKids dead (4 * n + 2 * edges + roots.length + 8) roots (Array.replicate n unset) #[]
   let r (c : Nat) : Nat := rank.getD c 0
   let cellText (c : Nat) (x : Cell) : String :=
     let kids : List String :=
@@ -59,8 +80,7 @@ def canon (s : OS) : String :=
       | .set | .frozenSet => ((x.kids.map r).mergeSort natLe).map toString
       | _ => x.kids.map (fun k => toString (r k))
     String.singleton x.kind.code ++ (if x.arena then "A" else "x") ++ toString (cnt.getD c 0) ++ ":" ++ ",".intercalate kids
-  let parts := (List.range n).filterMap (fun c =>
-    if dead.getD c true then none else some (cellText c (cells.getD c default)))
+  let parts := order.toList.map (fun c => cellText c (cells.getD c default))
   ";".intercalate parts ++ "|" ++ ",".intercalate (s.stack.reverse.map (fun c => toString (r c))) ++ "|" ++
     ",".intercalate ((s.memo.mergeSort (fun a b => a.1 ≤ b.1)).map (fun p => s!"{p.1}={r p.2}"))
 
